@@ -188,6 +188,21 @@ class ModelSystem(System):
             ops.append((('add_attacker', maxid + 2), 1))
             if not c.r_attackers and 0 not in live_ids:
                 ops.append((('add_attacker', 0), 1))
+        if len(c.r_attackers) < self.max_attackers and c.r_assets:
+            # an attachment that got its entry point before it is given to the model
+            ops.append((('add_attacker_prefilled', sorted(c.r_assets)[0]), 0))
+            if self.invalid_ops:
+                for a in self._stale_assets(c)[-1:]:
+                    if hasattr(c.assets[a], 'id') and hasattr(c.assets[a], 'name'):
+                        ops.append((('add_attacker_prefilled', a), 1))
+        if self.invalid_ops:
+            gone = [g for g in range(len(c.attackers)) if g not in c.r_attackers and getattr(c.attackers[g], 'id', None) is not None]
+            if gone and len(c.r_attackers) < self.max_attackers:
+                # an attachment that was removed from the model is added again (its entry points may meanwhile
+                # name assets that are gone)
+                ops.append((('readd_attacker', gone[-1]), 1))
+            for g in sorted(c.r_attackers)[:1]:
+                ops.append((('readd_attacker', g), 1))       # ... and one that is still in the model
         for h in sorted(c.r_attackers):
             ops.append((('remove_attacker', h), 0))
             eps = c.r_attackers[h]['eps']
@@ -368,6 +383,10 @@ class ModelSystem(System):
         except Exception as e:  # noqa: BLE001 - exception types are not compared
             raised = e
         c.last_outcome = (mode, 'raised' if raised is not None else 'ok')
+        if mode == 'raise_unchanged_or_commit':
+            # rejecting the call (nothing changes) and accepting it (the reference says what must be visible
+            # then) are both fine
+            mode = MUST_SUCCEED if raised is None else ANY_UNCHANGED
         if mode == MUST_SUCCEED and raised is None:
             commit(checking)
         after = c.last_obs = self.observe(c)
@@ -683,6 +702,47 @@ class ModelSystem(System):
                 raise Violation('add_attacker:explicit_id_not_honoured', f'asked {aid} got {obj.id}')
             c.r_attackers[g] = {'id': obj.id, 'name': obj.name, 'eps': {}}
         return MUST_SUCCEED, thunk, commit, 'explicit' if aid is not None else 'auto'
+
+    def op_add_attacker_prefilled(self, c, op):
+        from maltoolbox.model import AttackerAttachment
+        a = op[1]
+        g = len(c.attackers)
+        obj = AttackerAttachment()
+        c.attackers.append(obj)
+        s0 = self.ep_steps[0]
+        live = a in c.r_assets
+
+        def thunk():
+            obj.add_entry_point(c.assets[a], s0)
+            c.model.add_attacker(obj)
+
+        def commit(checking):
+            # an entry point on an asset that is not in the model must not become visible through the model
+            c.r_attackers[g] = {'id': obj.id, 'name': obj.name, 'eps': ({a: [s0]} if live else {})}
+        if live:
+            return MUST_SUCCEED, thunk, commit, 'live_asset'
+        return 'raise_unchanged_or_commit', thunk, commit, 'asset_not_in_model'
+
+    def op_readd_attacker(self, c, op):
+        g = op[1]
+        obj = c.attackers[g]
+        hof = {id(o): h for h, o in enumerate(c.assets)}
+
+        def thunk():
+            c.model.add_attacker(obj)
+        if g in c.r_attackers:
+            def commit(checking):     # already part of the model: it must not be listed a second time
+                pass
+            return 'raise_unchanged_or_commit', thunk, commit, 'live_attachment'
+
+        def commit(checking):
+            eps = {}
+            for aobj, steps in obj.entry_points:
+                h = hof.get(id(aobj))
+                if h in c.r_assets:
+                    eps[h] = list(steps)
+            c.r_attackers[g] = {'id': obj.id, 'name': obj.name, 'eps': eps}
+        return 'raise_unchanged_or_commit', thunk, commit, 'removed_attachment'
 
     def op_remove_attacker(self, c, op):
         g = op[1]
